@@ -119,7 +119,7 @@ def both(ctx, stores):
 
 
 def run(ctx):
-    generic.run(ctx, "C03", ["dir", "dead", "term1", "markup", "term2", "live"],
+    generic.run(ctx, "C03+C03dyn", ["dir", "dead", "term1", "markup", "term2", "live"],
                 dict(conforming=30, flow=120, random=60, injected=30, handlers=20), oracle=both, what="CFG construction")
 
 
